@@ -1380,6 +1380,56 @@ fn(LC, 'dagger', trait='Spider', self_ty='OpenHypergraph', status='P', props=['C
 endgroup()
 
 # ---------------------------------------------------------------------------------------------
+# the thin trait / operator forms of the lax diagram (src/lax/category.rs): each must agree with the inherent operation
+# it forwards to, so `f | g`, `f >> g`, Monoidal::tensor, Arrow::identity and Spider::spider carry the same contracts
+# ---------------------------------------------------------------------------------------------
+group('impl<O: Clone + PartialEq, A: Clone> OpenHypergraph<O, A>')
+fn(LC, 'identity', trait='Arrow', self_ty='OpenHypergraph', status='P', props=['C10', 'C04'], rename='arrow_identity', rules={'subst': {'Self::Object': 'Vec<O>'}},
+   ensures=[('C10.lax-arrow-identity', 'r.hypergraph.nodes == a && r.hypergraph.edges@.len() == 0 && r.hypergraph.adjacency@.len() == 0'),
+            ('C10.lax-arrow-identity-q', 'r.hypergraph.quotient.0@.len() == 0 && r.hypergraph.quotient.1@.len() == 0'),
+            ('C10.lax-arrow-identity-len', 'r.sources@.len() == a@.len() && r.targets@.len() == a@.len()'),
+            ('C10.lax-arrow-identity-ids', 'forall|i: int| 0 <= i < a@.len() ==> ((#[trigger] r.sources@[i]).0 as int, (#[trigger] r.targets@[i]).0 as int) == (i, i)'),
+            ('C10.lax-arrow-identity-wf', 'r.wf()')])
+fn(LC, 'tensor', trait='Monoidal', self_ty='OpenHypergraph', status='P', props=['C10', 'C02'], rename='monoidal_tensor',
+   requires=['self.wf()', 'other.wf()', 'self.hypergraph.nodes@.len() + other.hypergraph.nodes@.len() <= usize::MAX'],
+   ensures=[('C02.lax-monoidal-tensor', 'is_lax_tensor(r, *self, *other)'),
+            ('C02.lax-monoidal-tensor-labels', '(lawful_clone::<O>() ==> r.hypergraph.nodes@ =~= self.hypergraph.nodes@ + other.hypergraph.nodes@) && (lawful_clone::<A>() ==> r.hypergraph.edges@ =~= self.hypergraph.edges@ + other.hypergraph.edges@)'),
+            ('C02.lax-monoidal-tensor-wf', 'r.wf()')])
+endgroup()
+group('impl<O: Clone + PartialEq, A: Clone + PartialEq> OpenHypergraph<O, A>')
+fn(LC, 'twist', trait='SymmetricMonoidal', self_ty='OpenHypergraph', status='P', props=['C03', 'C04', 'C10'], rename='lax_twist',
+   rules={'subst': {'Self::Object': 'Vec<O>', 'crate::strict::open_hypergraph::OpenHypergraph': 'crate::open_hypergraph::OpenHypergraph'}},
+   requires=['a@.len() + b@.len() <= usize::MAX'],
+   ensures=[('C03.lax-twist-wf', 'r.wf()'),
+            ('C03.lax-twist-discrete', """r.hypergraph.edges@.len() == 0 && r.hypergraph.adjacency@.len() == 0 && r.hypergraph.quotient.0@.len() == 0 && r.hypergraph.quotient.1@.len() == 0
+                && r.hypergraph.nodes@.len() == a@.len() + b@.len() && (lawful_clone::<O>() ==> r.hypergraph.nodes@ == b@ + a@)"""),
+            ('C03.lax-twist-legs', """r.sources@.len() == a@.len() + b@.len() && r.targets@.len() == a@.len() + b@.len()
+                && (forall|i: int| 0 <= i < a@.len() ==> #[trigger] ids(r.sources@)[i] == b@.len() + i)
+                && (forall|i: int| a@.len() <= i < a@.len() + b@.len() ==> #[trigger] ids(r.sources@)[i] == i - a@.len())
+                && (forall|i: int| 0 <= i < a@.len() + b@.len() ==> #[trigger] ids(r.targets@)[i] == i)""")])
+fn(LC, 'spider', trait='Spider', self_ty='OpenHypergraph', status='P', props=['C04', 'C10'], rename='spider_spider',
+   rules={'subst': {'Self::Object': 'Vec<O>', 'crate::finite_function::FiniteFunction': 'FiniteFunction'}},
+   requires=['s.wf()', 't.wf()'],
+   ensures=[('C04.lax-trait-spider-iff', 'r.is_some() <==> (s.target == t.target && s.target == w@.len())'),
+            ('C04.lax-trait-spider', """r.is_some() ==> ({ let f = r.unwrap(); f.hypergraph.nodes == w && f.hypergraph.edges@.len() == 0 && f.hypergraph.adjacency@.len() == 0
+                && f.hypergraph.quotient.0@.len() == 0 && f.hypergraph.quotient.1@.len() == 0
+                && ids(f.sources@) =~= s.table@ && ids(f.targets@) =~= t.table@ && f.wf() })""")])
+endgroup()
+fn(LC, 'bitor', trait='BitOr', self_ty='OpenHypergraph', status='P', props=['C02', 'C10'], rename='lax_bitor',
+   rules={'self_rename': ['f', '&OpenHypergraph<O, A>'], 'subst': {'Self::Output': 'OpenHypergraph<O, A>'}},
+   generics_add=['O: Clone + PartialEq, A: Clone'],
+   requires=['f.wf()', 'rhs.wf()', 'f.hypergraph.nodes@.len() + rhs.hypergraph.nodes@.len() <= usize::MAX'],
+   ensures=[('C02.lax-bitor', 'is_lax_tensor(r, *f, *rhs)'),
+            ('C02.lax-bitor-labels', '(lawful_clone::<O>() ==> r.hypergraph.nodes@ =~= f.hypergraph.nodes@ + rhs.hypergraph.nodes@) && (lawful_clone::<A>() ==> r.hypergraph.edges@ =~= f.hypergraph.edges@ + rhs.hypergraph.edges@)'),
+            ('C02.lax-bitor-wf', 'r.wf()')])
+fn(LC, 'shr', trait='Shr', self_ty='OpenHypergraph', status='P', props=['C10'], rename='lax_shr',
+   rules={'self_rename': ['f', '&OpenHypergraph<O, A>'], 'subst': {'Self::Output': 'Option<OpenHypergraph<O, A>>'}},
+   generics_add=['O: Clone + PartialEq, A: Clone'],
+   requires=['f.wf()', 'rhs.wf()', 'f.hypergraph.nodes@.len() + rhs.hypergraph.nodes@.len() <= usize::MAX', 'lawful_clone::<O>()', 'lawful_eq::<O>()'],
+   ensures=[('C10.lax-shr-defined', 'r.is_some() <==> lax_tgt_type(*f) =~= lax_src_type(*rhs)'),
+            ('C10.lax-shr', 'r.is_some() ==> is_lax_compose(r.unwrap(), *f, *rhs) && r.unwrap().wf()')])
+
+# ---------------------------------------------------------------------------------------------
 # C19 (forgetting, per operation): Forget::map_operation replaces a variable-labelled operation whose incident labels are all equal
 # by one merged node (by nothing when it has no incident nodes) and leaves every other operation intact.
 # ---------------------------------------------------------------------------------------------
